@@ -73,11 +73,22 @@ def _links_change_only_in_search(ctx: Ctx, api):
     ctx.ob("C07-O2", "R27 WRITE-OWNERSHIP", api, "columns are covered / uncovered and rows pushed / popped only inside the search closures (solve_exact_cover's own body does neither)", not bad, f"`{ast.unparse(bad[0])[:60]}` at line {bad[0].lineno} runs outside the search: it has no inverse, and a ring that is walked while it is being unlinked visits columns that are already covered" if bad else "", node=bad[0] if bad else api.node)
 
 
+def _secondary_set_is_the_callers(ctx: Ctx, build):
+    """Which columns need not be covered is the caller's decision: the set of secondary names is built once from the
+    `secondary` argument and nothing is added to or taken from it."""
+    defs = [n for n in own_nodes(build.node) if isinstance(n, ast.Assign) and len(n.targets) == 1 and ast.unparse(n.targets[0]) == "secondary_set"]
+    muts = [n for n in own_nodes(build.node) if isinstance(n, ast.Call) and isinstance(n.func, ast.Attribute) and isinstance(n.func.value, ast.Name) and n.func.value.id == "secondary_set" and n.func.attr in ("add", "update", "discard", "remove", "pop", "clear", "difference_update", "intersection_update", "symmetric_difference_update")]
+    muts += [n for n in own_nodes(build.node) if isinstance(n, ast.AugAssign) and ast.unparse(n.target) == "secondary_set"]
+    ok = len(defs) == 1 and ast.unparse(defs[0].value) in ("set(secondary) if secondary else set()", "set(secondary or ())", "set(secondary or [])") and not muts
+    ctx.ob("C07-O4", "R27 WRITE-OWNERSHIP", build, "the set of optional columns is the caller's `secondary` and nothing else", ok, (f"`{ast.unparse(muts[0])[:60]}`: a primary column that is demoted is no longer required to be covered - selections that miss it (or hit it twice) are returned as exact covers" if muts else f"{len(defs)} definition(s): {[ast.unparse(d.value)[:50] for d in defs]}"), node=muts[0] if muts else build.node)
+
+
 def run(ctx: Ctx):
     cover = ctx.func("dlx", "_cover")
     uncover = ctx.func("dlx", "_uncover")
     api = ctx.func("dlx", "solve_exact_cover")
     ctx.step(_links_change_only_in_search, api)
+    ctx.step(_secondary_set_is_the_callers, ctx.func("dlx", "_build_links"))
     # ---- O2 (shape-independent part, decided before any search anchor is needed): wherever a closure of
     # solve_exact_cover covers a sequence of columns in a loop and uncovers it in another, the second loop runs the
     # sequence backwards - a ring walked right is undone walking left, a list walked forwards is undone reversed
@@ -513,7 +524,16 @@ def _v_presolve_forced_rows(tree):
     g.body[k[0]:k[0]] = M.stmts("col = root.right\nwhile col is not root:\n    if col.size == 1:\n        row_node = col.down\n        _cover(col)\n        current.append(row_node.row)\n        node = row_node.right\n        while node is not row_node:\n            _cover(node.column)\n            node = node.right\n    col = col.right")
 
 
+def _v_duplicate_columns_demoted(tree):
+    g = M.find_func(tree, "_build_links")
+    k = [i for i, st in enumerate(g.body) if isinstance(st, ast.Assign) and M.src_is(st.targets[0], "secondary_set")]
+    if not k:
+        raise M.Skip("secondary_set not found")
+    g.body[k[0] + 1 : k[0] + 1] = M.stmts("seen_patterns = set()\nfor idx, name in enumerate(col_names):\n    pattern = tuple(bool(row[idx]) for row in matrix)\n    if pattern in seen_patterns:\n        secondary_set.add(name)\n    else:\n        seen_patterns.add(pattern)")
+
+
 VARIANTS = [
+    M.Variant("columns that repeat an earlier column's pattern are made optional (seed C07-Q)", DLX, _v_duplicate_columns_demoted, "C07-O4"),
     M.Variant("presolve loop covers forced rows while walking the header ring (seed C07-O)", DLX, _v_presolve_forced_rows, "C07-O2"),
     M.Variant("the trivial find_all answer is one module-level Result shared by all calls (seed C07-N)", DLX, _v_shared_trivial_result, "C07-G3"),
     M.Variant("row columns collected in a list, covered and uncovered in the same order (seed C07-K)", DLX, _v_list_uncover_forward, "C07-O2"),
